@@ -219,6 +219,18 @@ def rule_ly_container(ctx):
                 except ValueError as ex:
                     ok, why = False, str(ex)
             ctx.check(ok, R, "container[%s,%s]" % (clabel, vlabel), f.where(), "lilypond.from_NoteContainer(<%s>, <%s>)" % (clabel, vlabel), why)
+    # standalone text of a container is a complete expression: it carries the tuplet ratio too
+    for vlabel, (val, (base, dots, ratio)) in VALUES.items():
+        paths = run_method(repo, f, lambda: [make_container(repo, [0, 1]), val, True], summaries=summ)
+        ok, why = len(paths) == 1 and paths[0].kind == "return" and isinstance(paths[0].value, str), "outcome %s" % [(p.kind, p.value) for p in paths]
+        if ok:
+            try:
+                e = parse_ly(paths[0].value)["entries"]
+                if len(e) != 1 or e[0][0] != "chord" or dur_fields(e[0][2]) != (base, dots) or tuple(e[0][3]) != tuple(ratio):
+                    ok, why = False, "%r reads back as %s, expected one chord with base %s, %d dots and tuplet ratio %s:%s" % (paths[0].value, e, base, dots, ratio[0], ratio[1])
+            except ValueError as ex:
+                ok, why = False, str(ex)
+        ctx.check(ok, R, "container.standalone[%s]" % vlabel, f.where(), "lilypond.from_NoteContainer(<chord>, <%s>, standalone=True)" % vlabel, why)
     paths = run_method(repo, f, lambda: [make_container(repo, [0]), None, True], summaries=summ)
     ok = len(paths) == 1 and isinstance(paths[0].value, str) and paths[0].value.split() == ["{", "notea", "}"]
     ctx.check(ok, R, "container.standalone", f.where(), "from_NoteContainer(<single>, None, standalone=True)", "gives %s" % [(p.kind, p.value) for p in paths])
@@ -312,6 +324,32 @@ def rule_ly_track(ctx):
         m = re.search(r'title\s*=\s*"([^"]*)"\s*composer\s*=\s*"([^"]*)"\s*opus\s*=\s*"([^"]*)"', v)
         ok = m is not None and m.groups() == ("My Title", "Some Author", "Op. 1") and v.count("TRACK") == 2 and v.startswith("\\header")
     ctx.check(ok, R, "from_Composition", fc.where(), "lilypond.from_Composition", "header must carry title, author (composer) and subtitle (opus), then every track: %s" % [(p.kind, p.value) for p in paths])
+    # strings with LilyPond's own markup characters must still decode to themselves (a LilyPond string ends at the
+    # first unescaped double quote; a backslash starts an escape)
+    def ly_strings(text):
+        out, i = [], 0
+        while True:
+            i = text.find('"', i)
+            if i < 0:
+                return out
+            j, cur = i + 1, []
+            while j < len(text) and text[j] != '"':
+                if text[j] == "\\" and j + 1 < len(text):
+                    cur.append({"n": "\n", "t": "\t"}.get(text[j + 1], text[j + 1]))
+                    j += 2
+                else:
+                    cur.append(text[j])
+                    j += 1
+            out.append("".join(cur))
+            i = j + 1
+    for label, title, author, sub in (("quotes", 'Say "hi"', 'A "B" C', 'Op. "1"'), ("backslash", "C:\\new", "a\\b", "x\\")):
+        comp2 = AObj(repo.mod(COMP).cls("Composition"), {"tracks": [Token("t0")], "title": title, "author": author, "subtitle": sub}, name="comp")
+        paths = run_method(repo, fc, [comp2], summaries=rec)
+        ok = len(paths) == 1 and isinstance(paths[0].value, str)
+        got = ly_strings(paths[0].value)[:3] if ok else None
+        ok = ok and got == [title, author, sub]
+        ctx.check(ok, R, "from_Composition.header[%s]" % label, fc.where(), "lilypond.from_Composition(<title with %s>)" % label,
+                  "the header strings read back as %r, written %r: a double quote or backslash in a text must be escaped" % (got, [title, author, sub]))
 
 
 # ================================================================================ MusicXML
@@ -482,6 +520,7 @@ def rule_xml_score(ctx):
         ts = [AObj(trci, {"bars": [make_xml_bar(repo, [(["D"], "quarter")], concrete_beats=True)], "name": "Voice %d" % i, "instrument": None}, name="t%d" % i) for i in range(3)]
         ts.append(AObj(trci, {"bars": [make_xml_bar(repo, [])], "name": "Empty A", "instrument": None}, name="e0"))
         ts.append(AObj(trci, {"bars": [make_xml_bar(repo, [], key="C", meter=(4, 4))], "name": "Empty B", "instrument": None}, name="e1"))
+        ts.append(ts[0])  # the same Track object added twice is still two parts
         comp = AObj(compci, {"tracks": ts, "title": "t", "author": "a"}, name="comp")
         return it.call_function(f, [comp], {})
     try:
@@ -495,9 +534,9 @@ def rule_xml_score(ctx):
         ids_p = [x.attrs.get("id") for x in parts]
         ids_s = [x.attrs.get("id") for x in (plist.find("score-part") if plist else [])]
         names = [sp.textof("part-name") for sp in (plist.find("score-part") if plist else [])]
-        if len(ids_p) != 5 or ids_p != ids_s or len(set(ids_p)) != 5 or any(not i for i in ids_p):
-            ok, why = False, "five tracks (three in unison, two empty) give part ids %s / part-list ids %s: every track needs its own id, the same in both places" % (ids_p, ids_s)
-        elif names != ["Voice 0", "Voice 1", "Voice 2", "Empty A", "Empty B"]:
+        if len(ids_p) != 6 or ids_p != ids_s or len(set(ids_p)) != 6 or any(not i for i in ids_p):
+            ok, why = False, "six tracks (three in unison, two empty, the first one again) give part ids %s / part-list ids %s: every track needs its own id, the same in both places" % (ids_p, ids_s)
+        elif names != ["Voice 0", "Voice 1", "Voice 2", "Empty A", "Empty B", "Voice 0"]:
             ok, why = False, "part names %s" % names
     ctx.check(ok, R, "score.equal-tracks", f.where(), "_composition2musicxml(<tracks that compare equal>)", why)
     # public entry points build a composition around their argument
